@@ -234,6 +234,7 @@ func ruleBHash(w *World, r *Report) {
 		return
 	}
 	r.FuncsAnalysed[fnName(fn)] = true
+	w.checkHashPath(r, fn)
 	writes := map[ssa.Instruction]*keyWrite{}
 	var order []*keyWrite
 	eachInstr(fn, false, func(_ *ssa.Function, in ssa.Instruction) {
